@@ -202,6 +202,15 @@ def run_shard(shard, ctx):
                     secs = [s_ for i, s_ in enumerate([sg, sy, EVENTS]) if m >> i & 1] + [TRACK_A]
                     for order in (secs, secs[::-1]):
                         check(ctx, render(order), "file", "required sections present: %r (some of them defective)" % [s_[0] for s_ in secs[:-1]], sample=dict(sections=[s_[0] for s_ in order]))
+        # ... nor does a LINE that is exactly the missing header, inside the body of another section (a body line is
+        # never a header): still ValueError, never an internal error
+        for m in range(7):
+            missing = [s_[0] for i, s_ in enumerate(req) if not m >> i & 1]
+            present = [s_ for i, s_ in enumerate(req) if m >> i & 1]
+            quotes = ["[%s]" % n for n in missing]
+            for body, ind in ((quotes, ""), (quotes, "  "), (["x"] + quotes + ["{", "y"], ""), ([q_ + " " for q_ in quotes] + quotes, "")):
+                for secs in (present + [("Notes to self", body, ind), TRACK_A], [("Notes", body, ind)] + present, present + [TRACK_A, ("Zed", body, ind)]):
+                    check(ctx, render(secs), "file", "required sections present: %r; an unknown section quotes the header line(s) %r" % ([s_[0] for s_ in present], quotes), sample=dict(sections=[s_[0] for s_ in secs]))
         # a look-alike unknown section never stands in for a missing required one
         for m in range(7):
             for fake in ("Song]", "SyncTrack]]", "Events][old", "Song2", " Events"):
